@@ -1,7 +1,7 @@
 SPECIFICATION Spec
 CONSTANTS
   MaxDepth = 2
-  MaxTens = 4
+  MaxTens = 5
   Dev = "align"
 VIEW view
 INVARIANT PlainPureInv
@@ -12,4 +12,6 @@ INVARIANT CopyIsolatedInv
 INVARIANT PermInvariantInv
 INVARIANT ResultIsRefInv
 INVARIANT InplaceLocalInv
+INVARIANT QuietStepInv
+INVARIANT NothingElseInv
 CHECK_DEADLOCK FALSE
